@@ -35,6 +35,8 @@
  *                 xdev         rename: fails with EXDEV when source and destination lie in different directories
  *                              (every directory its own file system)
  * rule ... seek <pattern> <nth> errno:ESPIPE : the file is not seekable (a pipe where a file is expected)
+ * SIMWORLD_CLOCK=tick  : the simulated clock: the n-th clock_gettime() of a thread reports 1000000 s + n ms, whatever
+ *                        the clock id (time belongs to the simulator; elapsed times that reach the output repeat exactly)
  * SIMWORLD_CLOCK=freeze: every clock_gettime() reports the same instant (a clock too coarse to tell two moments apart)
  * SIMWORLD_ABS=<dir>: absolute paths below <dir> belong to the world as well (logged and matched as spelled).
  * Default readdir order (no rule): sorted by name.
@@ -126,7 +128,8 @@ static int (*real_rename)(const char *, const char *);
 static off_t (*real_lseek)(int, off_t, int);
 static off64_t (*real_lseek64)(int, off64_t, int);
 static int (*real_clock_gettime)(clockid_t, struct timespec *);
-static int clock_frozen;
+static int clock_frozen, clock_ticking;
+static __thread long clock_calls; /* per thread: a helper thread that polls the clock must not advance the others' time */
 
 static const struct { const char *name; int value; } errnos[] = {
     {"EIO", EIO}, {"ENOSPC", ENOSPC}, {"EACCES", EACCES}, {"EMFILE", EMFILE},
@@ -322,6 +325,7 @@ static void init(void)
     real_clock_gettime = real_dlsym_bootstrap("clock_gettime");
     p = getenv("SIMWORLD_CLOCK");
     clock_frozen = p && !strcmp(p, "freeze");
+    clock_ticking = p && !strcmp(p, "tick");
     abs_prefix = getenv("SIMWORLD_ABS");
     if (abs_prefix && !*abs_prefix) abs_prefix = NULL;
     abs_prefix_len = abs_prefix ? strlen(abs_prefix) : 0;
@@ -376,7 +380,9 @@ static int is_world_path(const char *p)
 {
     if (!p) return 0;
     if (p[0] != '/') return 1;
-    return abs_prefix && !strncmp(p, abs_prefix, abs_prefix_len) && p[abs_prefix_len] == '/';
+    if (!abs_prefix || strncmp(p, abs_prefix, abs_prefix_len) || p[abs_prefix_len] != '/') return 0;
+    /* the driver's own files (plans, logs, hook output) are not part of the world */
+    return strncmp(p + abs_prefix_len, "/.swpriv/", 9) != 0;
 }
 
 /* The process stops here until the driver lets it go on (lock is held by the caller and released while waiting). */
@@ -637,6 +643,12 @@ int clock_gettime(clockid_t id, struct timespec *ts)
     if (clock_frozen && ts) {
         ts->tv_sec = 1000000;
         ts->tv_nsec = 0;
+        return 0;
+    }
+    if (clock_ticking && ts) {
+        long n = ++clock_calls;
+        ts->tv_sec = 1000000 + n / 1000;
+        ts->tv_nsec = (n % 1000) * 1000000L;
         return 0;
     }
     return real_clock_gettime(id, ts);
